@@ -62,6 +62,8 @@ class Ctx:
             return contains(tm, lambda s: s[0] == "attr" and s[2] == "store" and s[1] == ("self", TS))
         if e.kind == "store" and e.target is not None and e.target[0] == "item" and on_store(e.target):
             return True
+        if e.kind == "store" and e.target == ("attr", ("self", TS), "store") and (e.func is None or e.func.name != "__init__"):
+            return True  # the table itself is replaced: every entry it held is dropped
         if e.kind == "call" and e.attrname in ("pop", "clear", "popitem", "__delitem__", "update", "setdefault") and e.recv is not None \
                 and on_store(e.recv) and not e.targets:
             return True
@@ -324,6 +326,7 @@ def cancel_on_removal(cx: Ctx, rule: str):
             # dropping the whole store: every address must have been handled by a store method first
             whole = [e for e in p.events if e.kind == "call" and e.attrname == "clear" and cx._is_store_mutation(e)
                      and e.recv is not None and e.recv[0] == "attr"]
+            whole += [e for e in p.events if e.kind == "store" and e.target == ("attr", ("self", TS), "store") and cx._is_store_mutation(e)]
             if whole:
                 n += 1
                 deleg = [e for e in p.events if e.kind == "call" and e.targets and e.targets[0].cls is not None
